@@ -457,3 +457,84 @@ field {field_name} of type {field_type} produced an invalid value when resolving
         _ => unreachable!("unsupported 'operation': {:?}", operation,),
     }
 }
+
+/// Add-only wrappers for the verification harness (`/verif`): the per-context candidate construction of
+/// [`DynamicallyResolvedValue::resolve`] on one tagged value, without an adapter.
+#[cfg(feature = "verif")]
+#[doc(hidden)]
+pub mod verif_hooks {
+    use std::{collections::BTreeMap, sync::Arc};
+
+    use super::{DynamicallyResolvedValue, compute_candidate_from_operation};
+    use crate::{
+        interpreter::{
+            ContextOutcomeIterator, DataContext, InterpretedQuery, TaggedValue, hints::CandidateValue,
+        },
+        ir::{
+            Eid, FieldRef, FieldValue, FoldSpecificField, FoldSpecificFieldKind, IndexedQuery,
+            Operation, Type, Vid,
+        },
+    };
+
+    /// `compute_candidate_from_operation` (the context-field and imported-tag paths of `resolve`)
+    /// for one context whose tag value is `tagged` (`None` = `TaggedValue::NonexistentOptional`).
+    pub fn candidate_from_tagged_value(
+        operation: &Operation<(), ()>,
+        tagged: Option<FieldValue>,
+        initial_candidate: CandidateValue<FieldValue>,
+    ) -> CandidateValue<FieldValue> {
+        let ctx: DataContext<()> = DataContext::new(None);
+        let tagged_value = match tagged {
+            Some(v) => TaggedValue::Some(v),
+            None => TaggedValue::NonexistentOptional,
+        };
+        let iterator: ContextOutcomeIterator<'static, (), TaggedValue> =
+            Box::new(std::iter::once((ctx, tagged_value)));
+        compute_candidate_from_operation(
+            operation,
+            initial_candidate,
+            Arc::from("field"),
+            Type::parse("Int").expect("valid type"),
+            iterator,
+        )
+        .next()
+        .expect("one context in, one context out")
+        .1
+    }
+
+    /// `DynamicallyResolvedValue::resolve_fold_specific_field` for one context whose fold has
+    /// `count` elements (`None` = the fold does not exist: inside a missing `@optional`).
+    /// `query` and `arguments` only provide the `InterpretedQuery` the struct carries.
+    pub fn candidate_from_fold_count(
+        query: Arc<IndexedQuery>,
+        arguments: Arc<BTreeMap<Arc<str>, FieldValue>>,
+        operation: Operation<(), ()>,
+        count: Option<usize>,
+        initial_candidate: CandidateValue<FieldValue>,
+    ) -> CandidateValue<FieldValue> {
+        let fold_eid = Eid::new(1usize.try_into().expect("nonzero"));
+        let fold_field = FoldSpecificField {
+            fold_eid,
+            fold_root_vid: Vid::new(2usize.try_into().expect("nonzero")),
+            kind: FoldSpecificFieldKind::Count,
+        };
+        let field = FieldRef::FoldSpecificField(fold_field.clone());
+        let interpreted = InterpretedQuery::from_query_and_arguments(query.clone(), arguments)
+            .expect("valid arguments");
+        let mut ctx: DataContext<()> = DataContext::new(None);
+        let elements = count.map(|n| (0..n).map(|_| DataContext::new(None)).collect::<Vec<_>>());
+        ctx.folded_contexts.insert(fold_eid, elements);
+        let value = DynamicallyResolvedValue {
+            query: interpreted,
+            resolve_on_component: &query.ir_query.root_component,
+            field: &field,
+            operation,
+            initial_candidate,
+        };
+        value
+            .resolve_fold_specific_field(&fold_field, Box::new(std::iter::once(ctx)))
+            .next()
+            .expect("one context in, one context out")
+            .1
+    }
+}
